@@ -42,7 +42,7 @@ def main():
         "engines": [{"name": "coq-proof", "path": "/verif/coq", "serves_properties": sorted(CLAIMED),
                      "kind_free_text": "Coq 8.16.1 development over models regenerated from /repo by /verif/translator (tie T) or hand-written and tied by extracted-model differential runs (tie H); harness in /verif/harness"}],
         "checks": checks,
-        "notes": "fix: commits in /repo (unguarded, minimal; the pinned suite passes with all of them): 6c1ddc0 (C03), e0a4441 (C02), 4a9d7f5 + 9ca6973 (C07), 8c96a8d + 87eaf1b + 91e2b1c + faf2c78 + cc67421 + 61a7da2 + dbe5906 + 99c7597 (C19), 37f23bf (C15), 3892ce0 (C20), 2d3d738 (C10), 3f474d8 (C17), 2456cfe (C16). Open known findings: known_findings.json. As-built record: DESIGN.md section 0; blind seeded changes and which check caught each: DESIGN.md 0.6 and seeded/.",
+        "notes": "fix: commits in /repo (unguarded, minimal; the pinned suite passes with all of them): 6c1ddc0 (C03), e0a4441 (C02), 4a9d7f5 + 9ca6973 (C07), 8c96a8d + 87eaf1b + 91e2b1c + faf2c78 + cc67421 + 61a7da2 + dbe5906 + 99c7597 (C19), 37f23bf (C15), 3892ce0 (C20), 2d3d738 (C10), 3f474d8 (C17), 2456cfe (C16). 58e7cfd + 342e95c (C11), b2b1af2 (C16). Open known findings: known_findings.json (new in rounds 7-8: C20 x2 NaN densities, C05 int8 strain rate). The module-state guard of harness/purity.py is enforced by default (VERIF_PURITY_ENFORCE=0 disables it). As-built record: DESIGN.md section 0; blind seeded changes and which check caught each: DESIGN.md 0.6 and seeded/.",
         "not_applicable": na,
     }
     json.dump(m, open("/verif/MANIFEST.json", "w"), indent=1)
